@@ -71,6 +71,7 @@ func checkC02(c *core.Ctx, r *core.Report) {
 		"(6) where the literal is a float and the stored value an integer, fopOnNumber sets the value's type to float and computes its float view from the member its tag selects, before compareNumberDte (which otherwise compares with the literal's truncated integer view); " +
 		"(7) the range-index check prunes a block for an unparsable literal only after the float parse failed too; " +
 		"(8) both branches of SegmentSearchRequest.JoinRequest (AND, OR) add the other operand's per-block set of columns that passed the index checks to the joined request; " +
+		"(9) the record-level pass of filterRecordsFromSearchQuery, which is where a negated term is inverted, is forced to run for a negated match filter (it is otherwise skipped when every column was searched through its dictionary); " +
 		"(4) the dictionary-encoded block search examines every dictionary word (the scan loops of dechecker.go have no exit other than exhaustion or an error return), since several distinct words can satisfy one filter (case-insensitive match, 5 vs 5.0)."
 	r.NotCovered = "whether literal typing, wildcard/regex translation and case folding are right, AND/OR/NOT composition beyond the join of per-block column sets, agreement of the search clause with the `where` stage (different representation), the 1e-4 tolerance of float equality (treated as an equality atom)"
 
@@ -220,6 +221,167 @@ func checkC02(c *core.Ctx, r *core.Report) {
 	checkPruneParse(c, r)
 	// ---------------------------------------------------------------- (8) AND / OR joins merge the per-block column sets
 	checkJoinMerge(c, r)
+	// ---------------------------------------------------------------- (9) a negated term is applied whatever the block's encoding
+	checkNegationApplied(c, r)
+}
+
+// involvesNegate: v is computed from a load of MatchFilter.NegateMatch (through &&-phis, !, comparisons).
+func involvesNegate(v ssa.Value, negF *types.Var, depth int) bool {
+	if v == nil || depth > 6 {
+		return false
+	}
+	switch x := v.(type) {
+	case *ssa.UnOp:
+		if fa, ok := x.X.(*ssa.FieldAddr); ok && core.FieldOfAddr(fa) == negF {
+			return true
+		}
+		return involvesNegate(x.X, negF, depth+1)
+	case *ssa.BinOp:
+		return involvesNegate(x.X, negF, depth+1) || involvesNegate(x.Y, negF, depth+1)
+	case *ssa.Phi:
+		for _, e := range x.Edges {
+			if involvesNegate(e, negF, depth+1) {
+				return true
+			}
+		}
+	}
+	return false
+}
+
+// negateKnownTrue: block b is reached only where a NegateMatch test succeeded.
+func negateKnownTrue(b *ssa.BasicBlock, negF *types.Var) bool {
+	for d := b; d != nil && d.Idom() != nil; d = d.Idom() {
+		idom := d.Idom()
+		ifi, ok := core.LastIf(idom)
+		if !ok || len(d.Preds) != 1 || idom.Succs[0] != d {
+			continue
+		}
+		if involvesNegate(ifi.Cond, negF, 0) {
+			return true
+		}
+	}
+	return false
+}
+
+func checkNegationApplied(c *core.Ctx, r *core.Report) {
+	fn := c.Fn("pkg/segment/search", "filterRecordsFromSearchQuery")
+	negF := c.Field("pkg/segment/structs", "MatchFilter.NegateMatch")
+	name := "search.filterRecordsFromSearchQuery"
+	// the inversion site: a NegateMatch test inside a loop
+	var site *ssa.BasicBlock
+	loops := core.Loops(fn)
+	for _, b := range fn.Blocks {
+		ifi, ok := core.LastIf(b)
+		if !ok || !involvesNegate(ifi.Cond, negF, 0) {
+			continue
+		}
+		if core.InnermostLoop(loops, b) != nil {
+			site = b
+		}
+	}
+	if site == nil {
+		r.Violation("GUARD", name+":negated-term-is-inverted-per-record", c.Pos(fn.Pos()), "no per-record inversion of a negated match filter is left in the record-level pass")
+		return
+	}
+	r.OK("GUARD", name+":negated-term-is-inverted-per-record", c.Pos(site.Instrs[len(site.Instrs)-1].Pos()), "the record-level pass inverts the match of a negated filter")
+	// the guard of the record-level pass: the outermost dominating If on a boolean phi outside the loop
+	var guard *ssa.If
+	for d := site; d != nil && d.Idom() != nil; d = d.Idom() {
+		idom := d.Idom()
+		ifi, ok := core.LastIf(idom)
+		if !ok || core.InnermostLoop(loops, idom) != nil {
+			continue
+		}
+		if _, isPhi := ifi.Cond.(*ssa.Phi); isPhi && idom.Succs[0].Dominates(site) {
+			guard = ifi
+		}
+	}
+	if guard == nil {
+		// the pass is unconditional
+		r.OK("GUARD", name+":record-level-pass-runs-for-a-negated-term", c.Pos(site.Instrs[0].Pos()), "the record-level pass is not conditional")
+		return
+	}
+	// some incoming `true` of the guard variable comes from a block reached only when the filter is negated
+	forced := false
+	var walk func(v ssa.Value, seen map[ssa.Value]bool)
+	walk = func(v ssa.Value, seen map[ssa.Value]bool) {
+		phi, ok := v.(*ssa.Phi)
+		if !ok || seen[v] {
+			return
+		}
+		seen[v] = true
+		for i, e := range phi.Edges {
+			if k, ok := e.(*ssa.Const); ok && k.Value != nil && k.Value.String() == "true" {
+				if negateKnownTrue(phi.Block().Preds[i], negF) {
+					forced = true
+				}
+			}
+			walk(e, seen)
+		}
+	}
+	walk(guard.Cond, map[ssa.Value]bool{})
+	r.Check(forced, "GUARD", name+":record-level-pass-runs-for-a-negated-term", c.Pos(guard.Pos()),
+		"the variable that guards the record-level pass is set to true where the match filter is negated",
+		"the record-level pass, which is where a negated term (NOT word) is inverted, can be skipped for a negated filter — it is when every searched column of the block was already searched through its dictionary — so NOT word returns the events that contain the word, depending on the block's encoding")
+}
+
+// checkBloomGate (C03): every bloom check of the block pruning stage is skipped for a negated match filter.
+func checkBloomGate(c *core.Ctx, r *core.Report) {
+	negF := c.Field("pkg/segment/structs", "MatchFilter.NegateMatch")
+	n := 0
+	for _, fn := range c.RepoFunctions() {
+		for _, ci := range core.CallsIn(fn) {
+			f := core.CalleeFunc(ci)
+			if f == nil || !strings.HasPrefix(f.Name(), "doBloomCheck") {
+				continue
+			}
+			if strings.HasPrefix(fn.Name(), "doBloomCheck") {
+				continue // helpers calling each other
+			}
+			n++
+			// dominated by the false side of a condition that involves NegateMatch: directly, or through a
+			// boolean variable that is set to true only under a NegateMatch test
+			gated := false
+			for d := ci.Block(); d != nil && d.Idom() != nil; d = d.Idom() {
+				idom := d.Idom()
+				ifi, ok := core.LastIf(idom)
+				if !ok || len(d.Preds) != 1 {
+					continue
+				}
+				cond := ifi.Cond
+				if involvesNegate(cond, negF, 0) {
+					gated = true
+				}
+				var viaFlag func(v ssa.Value, depth int) bool
+				viaFlag = func(v ssa.Value, depth int) bool {
+					if depth > 4 {
+						return false
+					}
+					switch x := v.(type) {
+					case *ssa.UnOp:
+						return viaFlag(x.X, depth+1)
+					case *ssa.Phi:
+						for i, e := range x.Edges {
+							if k, ok := e.(*ssa.Const); ok && k.Value != nil && k.Value.String() == "true" && negateKnownTrue(x.Block().Preds[i], negF) {
+								return true
+							}
+							if viaFlag(e, depth+1) {
+								return true
+							}
+						}
+					}
+					return false
+				}
+				if viaFlag(cond, 0) {
+					gated = true
+				}
+			}
+			r.Check(gated, "SIBLING", shortFn(fn)+":"+f.Name()+"-skipped-for-a-negated-term", c.Pos(ci.Pos()),
+				"the bloom check is conditional on the match filter not being negated",
+				"a bloom check prunes blocks for a negated match filter: a block whose bloom lacks the word holds only matches of NOT word, so pruning it loses them (the other pruning path skips the check: the answer changes when the segment rotates)")
+		}
+	}
+	r.Floor("SIBLING", "bloom checks in the block pruning stage", n, 3)
 }
 
 func checkJoinMerge(c *core.Ctx, r *core.Report) {
@@ -658,6 +820,7 @@ func checkC03(c *core.Ctx, r *core.Report) {
 		"(2) TimeRange.AreTimesFullyEnclosed means start <= low and high <= end; " +
 		"(3) DEPENDS fast-path gates — canUseSSTForStats implies match-all ∧ segment fully enclosed ∧ no eval / values() / list() / non-ingest statistic, and the agile-tree gate implies segment fully enclosed ∧ match-all ∧ no time aggregation; the `fully enclosed` arguments are results of AreTimesFullyEnclosed on the query range; " +
 		"(4) ORDER (shared with C11) — the rotation hand-over and snapshot order; " +
+		"(6) SIBLING — every bloom check of the block pruning stage (rotated and open segments) is skipped for a negated match filter; " +
 		"(5) RECSTART — the ingest-time matcher of persistent queries reads a column's last record as cbuf[cstartidx:cbufidx]: every per-record start of a column value (initAndBackFillColumn for present columns, the absent-column loop for the others) stores cstartidx = cbufidx before the record's bytes are appended, so the matcher never sees the previous record's value."
 	r.NotCovered = "equality of results across layouts, bloom contents vs probes, persistent-query bitsets vs raw search beyond the record-start clause, agile-tree/rollup contents, parallel-chain merge"
 	eq := core.EqualityCalls{}
@@ -699,6 +862,9 @@ func checkC03(c *core.Ctx, r *core.Report) {
 
 	// ---------------------------------------------------------------- (5)
 	checkRecordStart(c, r)
+
+	// ---------------------------------------------------------------- (6)
+	checkBloomGate(c, r)
 }
 
 // checkRecordStart: cstartidx is set to cbufidx at the start of every record's value in a column.
